@@ -3,9 +3,19 @@
    each for clause and each for clause with at least one if of a statement-level comprehension (weight) ;
    mccabe dead body = 1 + weights of the decision points that are not among the statements reported dead.
    Model (Cfg/Flow.v): [complexity] mirrors complexity.go on the CFG the builder produces.
-   The property's construct list excludes with / match / raise / finally: [c03_block]. *)
+   The property's construct list excludes with / match / raise / finally: [c03_block].
+
+   Link to the graph-level model Cfg/Builder.v (blocks, typed edges, loop/exception stacks, depth-first walk, the count
+   of complexity.go: distinct reachable blocks with a conditional out-edge + exception edges out of reachable blocks + 1):
+   PROVED FOR ALL BODIES of the construct list, no size bound (C03_builder_complexity_agrees,
+   C03_builder_complexity_eq, C03_builder_mccabe): [complexity_g (build body) = complexity body], hence the graph-level
+   count = 1 + live decision points.  Proof: Cfg/BuilderSim.v (the simulation carries a counting invariant: counted
+   edges out of blocks labelled reachable = Flow's decision count of the processed prefix), Cfg/BuilderReg.v (on the
+   construct list every block gets at most one ECondTrue edge and never an ECondFalse edge alone; needs the
+   "current block has no out-edge yet" invariant of Cfg/BuilderFrame.v), Cfg/BuilderCx.v (DFS visits every block once;
+   glue).  The <= 4-node vm_compute theorem of Cfg/BuilderBounded.v is recovered as an instance (C03_check_one_all). *)
 From Coq Require Import NArith List.
-From PV Require Import Py.PyAST Cfg.Flow Cfg.FlowSpec Cfg.FlowMcCabe.
+From PV Require Import Py.PyAST Cfg.Flow Cfg.FlowSpec Cfg.FlowMcCabe Cfg.Builder Cfg.BuilderBounded Cfg.BuilderCx.
 Import ListNotations.
 
 Theorem C03_mccabe : forall body,
@@ -36,7 +46,37 @@ Example C03_example :
   c03_block body = true /\ complexity body = 3 /\ mccabe (dead_ids body) body = 3 /\ dead_ids body = [8; 9]%N.
 Proof. vm_compute. repeat split; reflexivity. Qed.
 
+(* UNBOUNDED: the complexity the graph-level model of cfg_builder.go + reachability.go + complexity.go computes equals the
+   abstraction's decision count, for EVERY body of the construct list (if/elif/else, for/while with else,
+   break/continue/return, try/except/else, statement-level comprehensions, nested defs/classes) whose break/continue
+   statements are inside loops, plain and wrapped in a loop with an else clause ([agree_cx_all] is the complexity
+   component of BuilderBounded.check_one) *)
+Theorem C03_builder_complexity_agrees : forall b, agree_cx_all b = true.
+Proof. exact builder_complexity_agrees. Qed.
+
+(* the same statement as an equation *)
+Theorem C03_builder_complexity_eq : forall body,
+  lok_block false body = true -> c03_block body = true -> complexity_g (build body) = complexity body.
+Proof. exact complexity_agrees. Qed.
+
+(* with C03_mccabe: the graph-level count is 1 + the live decision points *)
+Theorem C03_builder_mccabe : forall body,
+  lok_block false body = true -> c03_block body = true -> NoDup (map fst (fn_marks body)) ->
+  complexity_g (build body) = mccabe (dead_ids body) body.
+Proof.
+  intros body Hlok Hc3 ND. rewrite (complexity_agrees body Hlok Hc3). exact (complexity_is_mccabe body Hc3 ND).
+Qed.
+
+(* both components of BuilderBounded.check_one (dead statements, complexity) for every body; the bounded theorem
+   flow_agrees_with_builder_bounded is the instance on [all_bodies] *)
+Theorem C03_check_one_all : forall b, check_one b = true.
+Proof. exact check_one_all. Qed.
+
 Print Assumptions C03_mccabe.
+Print Assumptions C03_builder_complexity_agrees.
+Print Assumptions C03_builder_complexity_eq.
+Print Assumptions C03_builder_mccabe.
+Print Assumptions C03_check_one_all.
 Print Assumptions C03_mccabe_every_def.
 Print Assumptions C03_invariant.
 Print Assumptions C03_risk.
